@@ -17,6 +17,9 @@ import (
 var c12Tokens = []string{
 	"@@", "||", "|", "^", "*", "/", "$", ",", "=", "~", "#", "##", "#@#", "#?#", "$$", "!", "\\", "'", "\"", " ", "\t",
 	"0.0.0.0", "::1", "a.com", "x", "domain", "client", "ctag", "dnstype", "dnsrewrite", "denyallow", "important", "badfilter", "A", ".*",
+	// complete modifiers, so that short (also one-character) patterns that need a
+	// restriction to be accepted are within the token bound
+	"$domain=a.com", "$client=x", "$ctag=x", "$dnstype=A", "$denyallow=a.com", "$dnsrewrite=", "$important,domain=x.org|a.com",
 }
 
 func c12Requests() []*rules.Request {
